@@ -124,6 +124,12 @@ def JsonldBnodePredSubValidator : Prop := ∀ w, Matches jsonldBnodePred w → M
 theorem jsonld_bnode_pred_sub_validator_refuted : ¬ JsonldBnodePredSubValidator := fun h =>
   absurd (h (ofStr "a:b") (by decide)) (by decide)
 
+/-- Since /repo ea054b4 `JsonLdParser::parse_json` answers with an error source when a quad carries a blank node
+label `BnodeId::new` rejects.  The flag is regenerated from /repo (tools/extractors/c08.py); the driver's model
+and `specOf_contract` (class `jsonldPred`) depend on it, so a regression of the repair fails this obligation
+(and the `tok jsonld@gen bnode_p` differential). -/
+theorem jsonld_rejects_invalid_bnode_labels : Gen.ParserWiring.jsonldRejectsInvalidBnodeLabels = true := by decide
+
 /-- without `:` every such label is accepted by `BnodeId::new` -/
 theorem jsonld_bnode_pred_sub_validator_partial :
     ∀ w, Matches jsonldBnodePredNoColon w → Matches Gen.BNODE_ID w :=
@@ -269,7 +275,13 @@ theorem specOf_contract (syn : String) (c : Cls) (hs : c.safe = true) :
   | iriRef => exact oxiri_ref_sub_validator _ ((matchB_iff _ _).1 ha)
   | iriAbs => exact abs_sub_iriV syn _ ((matchB_iff _ _).1 ha)
   | dt => exact oxiri_abs_sub_validator _ ((matchB_iff _ _).1 ha)
-  | nodeid | iriGtrig | pname | pnameD | pnameDt | xmlns | jsonldPred => exact absurd hs (by decide)
+  | jsonldPred =>
+    -- accepted = recognised by rdf_types AND (the repaired parser) accepted by `BnodeId::new`
+    have h2 : (matchB jsonldBnodePred w && (!Gen.ParserWiring.jsonldRejectsInvalidBnodeLabels || matchB Gen.BNODE_ID w)) = true := ha
+    rw [jsonld_rejects_invalid_bnode_labels] at h2
+    simp only [Bool.not_true, Bool.false_or, Bool.and_eq_true] at h2
+    exact (matchB_iff _ _).1 h2.2
+  | nodeid | iriGtrig | pname | pnameD | pnameDt | xmlns => exact absurd hs (by decide)
 
 /-- The same about `spec`, the function `smd_C08` evaluates for every `tok` request (so the differential ties
 this statement to the code): whenever the driver answers `accepted=1` for a (syntax, kind) of the safe
@@ -300,6 +312,8 @@ example : (spec "trig" "bnode_g").isSome = true ∧ safe "trig" "bnode_g" = true
 example : (spec "gnq" "iri_q").isSome = true ∧ safe "gnq" "iri_q" = true := by decide
 example : safe "xml" "resource" = true ∧ safe "nq" "dt_q" = true ∧ safe "xml" "lang_p" = true := by decide
 example : safe "gtrig" "iri" = false ∧ safe "ttl" "pname_o" = false ∧ safe "xml" "nodeid_o" = false := by decide
+example : safe "jsonld@gen" "bnode_p" = true ∧ (specOf "jsonld@gen" .jsonldPred).accept (ofStr "a:b") = false
+    ∧ (specOf "jsonld@gen" .jsonldPred).accept (ofStr "a-b") = true := by decide
 example : (specOf "ttl" .bnode).accept (ofStr "riog00000001") = true
     ∧ (specOf "ttl" .bnode).out (ofStr "riog00000001") = ofStr "riog00000001d" := by decide
 end Contract
